@@ -51,7 +51,10 @@ func (r *runner) round(ctx context.Context, rnd *hx.Rand, round int) error {
 	ids := [][]byte{rnd.Bytes(32), rnd.Bytes(32), rnd.Bytes(32)}
 	sort.Slice(ids, func(i, j int) bool { return string(ids[i]) < string(ids[j]) })
 	otherID := rnd.Bytes(32)
-	sender, receiver := 0, 1
+	// the receiver's position in the keyper set moves with the round (position 0 first)
+	receiver := round % n
+	sender := (receiver + 1) % n
+	other := (sender + 1) % n // a third position when n >= 3, never the sender
 	block := fx.ActivationBlock + 1
 
 	// producers: every keyper of the set, over its own database
@@ -68,7 +71,12 @@ func (r *runner) round(ctx context.Context, rnd *hx.Rand, round int) error {
 	for i := 0; i < n; i++ {
 		out, err := prod[i].Trigger(ctx, block, ids[:2], noderig.TriggerExtra{})
 		if err != nil || len(out) != 1 {
-			return fmt.Errorf("producer %d: %v (%d messages)", i, err, len(out))
+			// a member of the set with a successful key generation in its database, triggered after the
+			// activation block, has to come up with its shares: the same lookups decide whether a received
+			// message is for "a keyper of the named set"
+			r.violate("spec", "member-refused", fmt.Sprintf("keyper %d of a set of %d (threshold %d) with a successful key generation stored does not produce its key shares when triggered: %v (%d messages)", i, n, t, err, len(out)), nil,
+				map[string]interface{}{"scenario": fmt.Sprintf("fixture n=%d t=%d, node %d (core flavour), trigger at activation block + 1 for two identities", n, t, i)})
+			return nil
 		}
 		shareMsgs = append(shareMsgs, out[0].(*p2pmsg.DecryptionKeyShares))
 	}
@@ -104,15 +112,15 @@ func (r *runner) round(ctx context.Context, rnd *hx.Rand, round int) error {
 		{"eon+2^32", func(m *p2pmsg.DecryptionKeyShares) { m.Eon += 1 << 32 }},
 		{"eon=2^63", func(m *p2pmsg.DecryptionKeyShares) { m.Eon = 1 << 63 }},
 		{"eon=max", func(m *p2pmsg.DecryptionKeyShares) { m.Eon = ^uint64(0) }},
-		{"sender=other", func(m *p2pmsg.DecryptionKeyShares) { m.KeyperIndex = uint64(n - 1) }},
+		{"sender=other", func(m *p2pmsg.DecryptionKeyShares) { m.KeyperIndex = uint64(other) }},
 		{"sender=n", func(m *p2pmsg.DecryptionKeyShares) { m.KeyperIndex = uint64(n) }},
 		{"sender=n+1", func(m *p2pmsg.DecryptionKeyShares) { m.KeyperIndex = uint64(n + 1) }},
-		{"share0=other-keyper's", func(m *p2pmsg.DecryptionKeyShares) { m.Shares[0].Share = shareMsgs[n-1].Shares[0].Share }},
+		{"share0=other-keyper's", func(m *p2pmsg.DecryptionKeyShares) { m.Shares[0].Share = shareMsgs[other].Shares[0].Share }},
 		{"share0=other-identity's", func(m *p2pmsg.DecryptionKeyShares) { m.Shares[0].Share = otherShare.Share }},
 		{"share1=share0", func(m *p2pmsg.DecryptionKeyShares) { m.Shares[1].Share = m.Shares[0].Share }},
-		{"share1=other-keyper's", func(m *p2pmsg.DecryptionKeyShares) { m.Shares[1].Share = shareMsgs[n-1].Shares[1].Share }},
+		{"share1=other-keyper's", func(m *p2pmsg.DecryptionKeyShares) { m.Shares[1].Share = shareMsgs[other].Shares[1].Share }},
 		{"dup-identity,share1=other-keyper's-for-it", func(m *p2pmsg.DecryptionKeyShares) {
-			m.Shares[1] = &p2pmsg.KeyShare{IdentityPreimage: m.Shares[0].IdentityPreimage, Share: shareMsgs[n-1].Shares[0].Share}
+			m.Shares[1] = &p2pmsg.KeyShare{IdentityPreimage: m.Shares[0].IdentityPreimage, Share: shareMsgs[other].Shares[0].Share}
 		}},
 		{"dup-identity,share1-kept", func(m *p2pmsg.DecryptionKeyShares) { m.Shares[1].IdentityPreimage = m.Shares[0].IdentityPreimage }},
 		{"dup-identity,share1=random", func(m *p2pmsg.DecryptionKeyShares) {
